@@ -358,24 +358,20 @@ impl EntriesOnly {
 //@ insert entry
         let ghost all = stream.items@;
         let ghost refs0 = self.refs@;
-        let ghost mut n: int = 0;
         proof { assert(all.skip(0) =~= all); assert(refs0 + Seq::<String>::empty() =~= refs0); }
 //@ loop 1
             invariant
                 all == old(stream).items@, refs0 == old(self).refs@,
-                0 <= n <= all.len(), stream.items@ == all.skip(n),
-                forall|j: int| 0 <= j < n ==> skipped(#[trigger] all[j]),
-                self.refs@ == refs0 + refs_of(all, n), //# C10.inv_reference_uris_collected_in_order
-//@ insert before "return match stream.next().verif_await() {"
+                stream.items@.len() <= all.len(), stream.items@ == all.skip(all.len() - stream.items@.len()),
+                forall|j: int| 0 <= j < all.len() - stream.items@.len() ==> skipped(#[trigger] all[j]),
+                self.refs@ == refs0 + refs_of(all, all.len() - stream.items@.len()), //# C10.inv_reference_uris_collected_in_order
+//@ insert loop-start 1
             proof {
                 assert forall|v: Vec<String>| #[trigger] iter_seq::<String, Vec<String>>(v) == v@ by { ax_iter_seq_vec::<String>(v); }
+                // (no ghost counter: the number of items consumed is all.len() - stream.items@.len(); one step of it, for every branch)
+                assert forall|m: int| 0 <= m < all.len() implies #[trigger] all.skip(m).skip(1) =~= all.skip(m + 1) by { }
+                assert forall|m: int| 0 <= m < all.len() implies #[trigger] all.skip(m)[0] == all[m] by { }
             }
-//@ insert after "if re.is_intermediate() {"
-                        proof { n = n + 1; assert(stream.items@ =~= all.skip(n)); }
-//@ insert after "} else if re.is_ref() {"
-                        proof { n = n + 1; assert(stream.items@ =~= all.skip(n)); }
-//@ insert before "                        Ok(Some(re))"
-                        proof { assert(stream.items@ =~= all.skip(n + 1)); assert(re == all[n]); }
 //@ spec
     ensures
         // the first item that is neither an intermediate message nor a reference, unchanged; everything before it consumed
